@@ -43,6 +43,13 @@ T = {
  "C17b": ("C17", "item constraint on a structure that is not the first, an earlier structure pruned, pass not converged within maxiter", "C17 quick", "constraint:violated-after-structure-reduction:sill"),
  "C14a": ("C14", "law_binomial in the BTPE branch with n*p*q > 42", "C14 quick", "moments:binomial:BTPE"),
  "C14b": ("C14", "turning bands on a grid support with a Matern structure of parameter < 0.5", "MISSED by C14 quick at the time of seeding (microsim menus: spherical/exponential/gaussian only); harness extension requested", ""),
+ "C01c": ("C01", "heterotopic multivariate data + moving neighbourhood: a heterotopic neighbourhood followed by an isotopic one of the same size in one kriging() call", "C01 quick", "estim:drift:multivar:block:isotopic"),
+ "C02c": ("C02", "cokriging with >= 2 variables and >= 2 drift functions per variable (drift equations permuted in the LHS)", "C02 quick", "unbiased:monomial:drift:multivar:moving"),
+ "C03c": ("C03", "rotated structure whose radius is changed through setRange(idim)/setScale(idim) after the rotation was set", "MISSED by C03 quick at the time of seeding (one construction route per structure); harness extension requested", ""),
+ "C04c": ("C04", "migrate with flag_ball and dist_type=2 (tree built with the Manhattan metric)", "C04 quick", "migrate-ball:point-to-point:differs"),
+ "C05c": ("C05", "covariance/drift matrix requested for ONE variable of rank >= 1 on heterotopic multivariate data", "MISSED by C05 and C04 quick at the time of seeding (matrices requested for all variables only); harness extension requested", ""),
+ "C06c": ("C06", "sectors + a candidate with exactly the same first coordinate as the target on the dy<0 side", "MISSED by C06 quick at the time of seeding (jittered menus never produce dx == 0); harness extension requested", ""),
+ "C07c": ("C07", "selection defined, active status queried once, then a role-less column stored before the selection column deleted (stale cached column index)", "MISSED by C07 quick at the time of seeding (readers evaluated in final states only: caches never primed mid-history); harness extension requested", ""),
  "C09b": ("C09", "24/32-bit BMP whose colour-count header field exceeds 256", "C09 quick (after adding the binary grid readers with header-field faults; missed before)", "GridBmp:header-field:biClrUsed=small:memory-error"),
 }
 for seed, (prop, needs, caught, key) in T.items():
